@@ -599,28 +599,49 @@ def binopType (sc : Bool) (op : BinOp) (l r : Operand) : Option Ty :=
   | .shl | .shr =>
     if l.ty.isInt && r.ty.isInt then (exprpromote sc l).map (·.ty) else none
 
+/-- `condexpr`: the result type `t` of `c ? l : r` and the two (possibly converted) operands;
+`none` = diagnosed -/
+def condRes (sc : Bool) (l r : Operand) : Option (Ty × Operand × Operand) :=
+  if l.ty.isArith && r.ty.isArith then commonreal sc l r
+  else if l.ty = r.ty then some (l.ty, l, r)
+  else if l.ty = .void ∧ r.ty = .void then some (.void, l, r)
+  else if l.nullconst && r.ty.isPtr then some (r.ty, l, r)
+  else if r.nullconst && l.ty.isPtr then some (l.ty, l, r)
+  else match l.ty, r.ty with
+    | .ptr lq lb, .ptr rq rb =>
+      let tq := lq.union rq
+      if lb = .void ∨ rb = .void then some (.ptr tq .void, l, r)
+      else if typecompatible lb rb then some (.ptr tq (typecomposite lb rb), l, r)
+      else none
+    | _, _ => none
+
 /-- `condexpr`: type of `c ? l : r`.  `cond` is the controlling operand (only its `constval`
 matters: the constant-condition shortcut returns `exprconvert(c ? l : r, t)`). -/
 def condType (sc : Bool) (cond l r : Operand) : Option Ty :=
-  let res : Option (Ty × Operand × Operand) :=
-    if l.ty.isArith && r.ty.isArith then commonreal sc l r
-    else if l.ty = r.ty then some (l.ty, l, r)
-    else if l.ty = .void ∧ r.ty = .void then some (.void, l, r)
-    else if l.nullconst && r.ty.isPtr then some (r.ty, l, r)
-    else if r.nullconst && l.ty.isPtr then some (l.ty, l, r)
-    else match l.ty, r.ty with
-      | .ptr lq lb, .ptr rq rb =>
-        let tq := lq.union rq
-        if lb = .void ∨ rb = .void then some (.ptr tq .void, l, r)
-        else if typecompatible lb rb then some (.ptr tq (typecomposite lb rb), l, r)
-        else none
-      | _, _ => none
-  match res with
+  match condRes sc l r with
   | none => none
   | some (t, l', r') =>
     match cond.constval with
     | some c => some (exprconvert (if c then l' else r') t).ty
     | none => some t
+
+/-- the expression `condexpr` returns: an `EXPRCOND` node of type `t`, or — constant condition —
+the selected operand itself after `exprconvert` (which may leave it untouched: it then still is
+the lvalue / bit-field / constant it was) -/
+def condOperand (sc : Bool) (cond l r : Operand) : Option Operand :=
+  match condRes sc l r with
+  | none => none
+  | some (t, l', r') =>
+    match cond.constval with
+    | some c => some (exprconvert (if c then l' else r') t)
+    | none => some (rvalue t)
+
+theorem condOperand_ty (sc : Bool) (cond l r : Operand) :
+    (condOperand sc cond l r).map (·.ty) = condType sc cond l r := by
+  unfold condOperand condType
+  cases condRes sc l r with
+  | none => rfl
+  | some x => cases cond.constval <;> rfl
 
 inductive UnOp
   | addr | deref | plus | minus | bnot | lnot | sizeofE | alignofE | preinc | predec | postinc | postdec
@@ -796,7 +817,7 @@ def typeOf (tg : Target) : Expr → Option Operand
     | _, _ => none
   | .cond c l r =>
     match typeOf tg c, typeOf tg l, typeOf tg r with
-    | some c, some a, some b => (condType tg.signedchar c a b).map rvalue
+    | some c, some a, some b => condOperand tg.signedchar c a b
     | _, _, _ => none
   | .cast t e => (typeOf tg e).bind (castType t)
   | .sizeofT t => (sizeofType t).map rvalue
